@@ -3,6 +3,7 @@ package checks
 import (
 	"fmt"
 	"strings"
+	"time"
 
 	"verif/model"
 	"verif/obs"
@@ -40,6 +41,34 @@ func (c EvalCase) hasTag(t string) bool {
 // expectation ("" if none). kind classifies the disagreement:
 // panic | error | wrong-value | anomaly | unexpected-value.
 func evalMismatch(c EvalCase) (kind, detail string, out obs.Outcome) {
+	type res struct {
+		kind, detail string
+		out          obs.Outcome
+	}
+	ch := make(chan res, 1)
+	go func() {
+		k, d, o := evalMismatch1(c)
+		ch <- res{k, d, o}
+	}()
+	select {
+	case r := <-ch:
+		return r.kind, r.detail, r.out
+	case <-time.After(hangBound):
+		return "hang", fmt.Sprintf("program: %s\nexpected: %s\nobserved: evaluating or enumerating the result did not finish within %v", c.Src, c.Expect, hangBound),
+			obs.Outcome{Kind: "hang"}
+	}
+}
+
+// hangBound is far above the milliseconds any generated case needs.
+const hangBound = 20 * time.Second
+
+func evalMismatch1(c EvalCase) (kind, detail string, out obs.Outcome) {
+	if !strings.HasPrefix(c.Expect, "!") {
+		// hand-written expectations (witnesses) need not be in canonical order
+		if v, err := model.ParseKey(c.Expect); err == nil {
+			c.Expect = v.Key()
+		}
+	}
 	out = obs.Eval(c.Src)
 	switch out.Kind {
 	case "panic":
@@ -88,16 +117,46 @@ func tagsOf(vs ...*model.V) []string {
 			continue
 		}
 		v.Walk(func(x *model.V) {
+			if x.K == model.KTup {
+				if a, ok := x.SugarAttr(); ok && a != "@value" {
+					at, _ := x.Get("@")
+					val, _ := x.Get(a)
+					_, atInt := at.IsInt()
+					n, valInt := val.IsInt()
+					if !atInt || (a == "@char" && (!valInt || n < 0)) || (a == "@byte" && (!valInt || n < 0 || n > 255)) {
+						add("odd-sugar")
+					}
+				}
+			}
 			if x.K != model.KSet {
 				return
 			}
 			if x.HasSuperimposed() {
 				add("superimposed")
 			}
-			if sv, ok := x.AsSeq(); ok {
-				if sv.Attr == "@byte" && sv.Holes > 0 {
-					add("bytes-sparse")
+			// byte tuples anywhere in a set end up in one Bytes bucket: gaps
+			// between their indices cannot be represented
+			lo, hi, n := 1<<30, -(1 << 30), 0
+			seenIdx := map[int]bool{}
+			for _, e := range x.Elems {
+				if a, ok := e.SugarAttr(); ok && a == "@byte" {
+					at, _ := e.Get("@")
+					if i, ok := at.IsInt(); ok && !seenIdx[i] {
+						seenIdx[i] = true
+						n++
+						if i < lo {
+							lo = i
+						}
+						if i > hi {
+							hi = i
+						}
+					}
 				}
+			}
+			if n > 0 && hi-lo+1 > n {
+				add("bytes-sparse")
+			}
+			if sv, ok := x.AsSeq(); ok {
 				if sv.Attr == "@char" && sv.Holes > 0 {
 					add("string-holes")
 				}
